@@ -331,6 +331,17 @@ let handle (line : string) : string =
        | M.UErr -> "E"
        | M.UPanic -> "PANIC"
        | M.UFuel -> "FUEL")
+  | L [A "cli"; L [a; m; n; r]; L files] ->
+      let fl = { M.f_all = (int_of_sx a = 1); M.f_xml = (int_of_sx m = 1); M.f_noname = (int_of_sx n = 1); M.f_rec = (int_of_sx r = 1) } in
+      (* the serialisation of -m is an oracle: a marker naming the node *)
+      let ser _ (p : M.path) : M.str =
+        n_of_int 1 :: List.map (fun c -> n_of_int (Char.code c)) (List.init (String.length (show_path p)) (String.get (show_path p))) @ [n_of_int 2] in
+      let file = function
+        | L [path; A stdin; A "none"; A "none"] -> (((str_of_sx path, stdin = "1"), M.AElem (M.Z0, { M.q_space = []; M.q_local = [] }, [], [], [])), None)
+        | L [path; A stdin; id; A "none"] -> (((str_of_sx path, stdin = "1"), Hashtbl.find docs (int_of_sx id)), None)
+        | L [path; A stdin; id; v] -> (((str_of_sx path, stdin = "1"), Hashtbl.find docs (int_of_sx id)), Some (value_of_sx v))
+        | _ -> failwith "cli file" in
+      "S " ^ show_str (M.cli_stdout ser fl (List.map file files))
   | L [A "sv"; id; p] -> "S " ^ show_str (M.string_value (Hashtbl.find docs (int_of_sx id)) (path_of_sx p))
   | L [A "tostr"; A h] -> "S " ^ show_str (M.num_to_str (M.f_of_bits (z_of_hex h)))
   | L [A "tonum"; v] -> "N " ^ show_num (M.str_to_num (str_of_sx v))
